@@ -53,13 +53,21 @@ def go_env():
     return e
 
 
-def build_harness(log):
-    """Rebuild harness + factgen from /repo's current working tree, hooks on."""
+def build_harness(log, extra_builds=(), tier="quick"):
+    """Rebuild harness + factgen from /repo's current working tree, hooks on.
+    extra_builds: [{"name": binary, "flags": [...], "tiers": [...]}] additional variants of the
+    harness binary (C16: `-race`), built only in the listed tiers."""
     with Lock("go"):
         shutil.copyfile(os.path.join(REPO, "go.sum"), os.path.join(HARN, "go.sum"))
         rc, out = sh(["go", "build", "-tags", "verif", "-o", os.path.join(BUILD, "yk-harness"), "."],
                      cwd=HARN, env=go_env(), timeout=900)
         log.append(("go build harness", rc, out[-4000:]))
+        for xb in extra_builds:
+            if rc == 0 and tier in xb.get("tiers", []):
+                rc, out2 = sh(["go", "build"] + xb["flags"] + ["-tags", "verif", "-o", os.path.join(BUILD, xb["name"]), "."],
+                              cwd=HARN, env=go_env(), timeout=1800)
+                log.append(("go build " + xb["name"], rc, out2[-4000:]))
+                out += out2
         return rc == 0, out
 
 
@@ -190,14 +198,17 @@ def split_traces(path):
 
 
 def run_engine_worker(args):
-    pid, engine, seed, n, tier, outdir, replay, extra = args
+    pid, engine, seed, n, tier, outdir, replay, extra = args[:8]
+    opts = args[8] if len(args) > 8 else {}
     os.makedirs(outdir, exist_ok=True)
-    cmd = [os.path.join(BUILD, "yk-harness"), engine, "-seed", str(seed), "-n", str(n), "-tier", tier, "-out", outdir]
+    cmd = [os.path.join(BUILD, opts.get("binary") or "yk-harness"), engine, "-seed", str(seed), "-n", str(n), "-tier", tier, "-out", outdir]
     if replay:
         cmd += ["-replay", replay]
     cmd += extra
     t0 = time.time()
     env = {"GOMEMLIMIT": "6GiB"}
+    for k, v in (opts.get("env") or {}).items():
+        env[k] = v.replace("{out}", outdir)
     rc, out = sh(cmd, timeout=3600, env=env)
     res = {"engine": engine, "seed": seed, "dir": outdir, "rc": rc, "harness_out": out[-3000:], "replay": replay}
     if rc != 0:
@@ -314,7 +325,7 @@ def main():
             if rc != 0:
                 broken.append(f"leanchecker rejected {m}: {out[-300:]}")
     # 4. harness
-    ok_go, out_go = build_harness(log)
+    ok_go, out_go = build_harness(log, P.get("extra_builds", []), tier)
     if not ok_go:
         broken.append("harness does not build against /repo: " + out_go[-800:])
 
@@ -339,11 +350,15 @@ def main():
                         if f.endswith(".trace") and f.startswith(E["name"] + "-"):
                             jobs.append((pid, E["name"], seed, 0, tier, os.path.join(rundir, "corpus-" + f),
                                          os.path.join(cdir, f), E.get("args", [])))
-                n = E[tier]["n"]
-                w = E[tier].get("workers", 8)
-                for k in range(w):
-                    jobs.append((pid, E["name"], seed * 1000 + k, max(1, n // w), tier,
-                                 os.path.join(rundir, f"{E['name']}-{k}"), None, E.get("args", []) + E[tier].get("args", [])))
+                # E[tier] plus optional variants E[tier + "_<variant>"] (own binary / environment, e.g. -race)
+                for ck in [k for k in E if k == tier or k.startswith(tier + "_")]:
+                    n = E[ck]["n"]
+                    w = E[ck].get("workers", 8)
+                    for k in range(w):
+                        jobs.append((pid, E["name"], seed * 1000 + k + (500 if ck != tier else 0), max(1, n // w), tier,
+                                     os.path.join(rundir, f"{E['name']}-{ck}-{k}"), None,
+                                     E.get("args", []) + E[ck].get("args", []),
+                                     {"binary": E[ck].get("binary"), "env": E[ck].get("env")}))
         with cf.ThreadPoolExecutor(max_workers=a.jobs) as ex:
             results = list(ex.map(run_engine_worker, jobs))
 
